@@ -216,6 +216,7 @@ def join_data(left_data, right_data, join_expr, right_expr=None, is_left_join=Fa
         elif not is_left_join:
             data.append(dict(left_row))
 
+    _update_statement_count(options, eval_options)
     return data
 
 
@@ -255,6 +256,7 @@ def add_calculated_field(data, field_name, expr, variables=None, options=None):
     for row in data:
         row[field_name] = evaluate_expression(calc_expr, eval_options, row)
 
+    _update_statement_count(options, eval_options)
     return data
 
 
@@ -294,7 +296,14 @@ def filter_data(data, expr, variables=None, options=None):
         if value_boolean(evaluate_expression(filter_expr, eval_options, row)):
             result.append(row)
 
+    _update_statement_count(options, eval_options)
     return result
+
+
+# Helper to carry the statement count of a copied evaluation options object back to the caller's options
+def _update_statement_count(options, eval_options):
+    if eval_options is not options and options is not None and 'statementCount' in eval_options:
+        options['statementCount'] = eval_options['statementCount']
 
 
 def aggregate_data(data, aggregation):
